@@ -827,7 +827,7 @@ func faultCase(k *engine.Case) {
 
 type srvHandler struct {
 	srv     *stcp.Server
-	mgr     *stcp.SessionMgr
+	mgr     stcp.IConnMgr
 	max     atomic.Int32
 	exits   atomic.Int32
 	greet   sync.Map
@@ -865,12 +865,49 @@ func (h *srvHandler) OnExit(s *stcp.Session) {
 	}
 }
 
+// RunEcho makes srvHandler an IEcho as well: the request/reply session flavour of the same
+// server frame (the connection count is released by the handler through ReleaseRef).
+func (h *srvHandler) RunEcho(s *stcp.Echo) {
+	defer func() {
+		s.Close()
+		s.ReleaseRef()
+		h.exits.Add(1)
+		h.live.Add(-1)
+	}()
+	n := h.mgr.ConnCount()
+	for {
+		o := h.max.Load()
+		if n <= o || h.max.CompareAndSwap(o, n) {
+			break
+		}
+	}
+	l := h.live.Add(1)
+	for {
+		o := h.maxLive.Load()
+		if l <= o || h.maxLive.CompareAndSwap(o, l) {
+			break
+		}
+	}
+	if err := s.Send([]byte{'A'}); err != nil {
+		return
+	}
+	var b [1]byte
+	for s.Read(b[:]) == nil {
+	}
+}
+
 func serverCase(k *engine.Case) {
 	r := k.R
 	m := []int{1, 2, 5}[r.Intn(3)]
 	clients := 3 * m
 	h := &srvHandler{}
-	h.mgr = stcp.NewSessionMgr(h, stcp.WithReadTimeout(30*time.Second), stcp.WithWriteTimeout(30*time.Second))
+	echo := r.Intn(3) == 0
+	if echo {
+		h.mgr = stcp.NewEchoMgr(h, stcp.WithReadTimeout(30*time.Second), stcp.WithWriteTimeout(30*time.Second))
+		k.Count("server_rounds_echo_manager", 1)
+	} else {
+		h.mgr = stcp.NewSessionMgr(h, stcp.WithReadTimeout(30*time.Second), stcp.WithWriteTimeout(30*time.Second))
+	}
 	// find a free loop-back port
 	ln, err := net.Listen("tcp", "127.0.0.1:0")
 	if err != nil {
@@ -881,7 +918,7 @@ func serverCase(k *engine.Case) {
 	ln.Close()
 	srv := stcp.NewTCPSrv(addr, h.mgr)
 	ech := srv.Start(stcp.WithMaxConn(int32(m)), stcp.WithLogger(quietLogger))
-	k.Logf("server %s max=%d clients=%d", addr, m, clients)
+	k.Logf("server %s max=%d clients=%d echo-manager=%v", addr, m, clients, echo)
 	k.Nontrivial()
 	// connect clients one after another; each waits for greeting or close
 	type cl struct {
